@@ -7,8 +7,8 @@
    height exceeds the wallet's, after the updater has caught up):
      - whether the wallet's best block is the node's best block,
      - the node's best height,
-     - for every tracked output id the record under the standard key and under the
-       contract key: asset, amount, program, vote key, account, program index, change
+     - for every output id 1..n of the case the record under the standard key and under
+       the contract key, when present: asset, amount, program, vote key, account, program index, change
        flag, ValidHeight, the keeper's verdict "usable at the node's best height", and
        the consensus verdict for spending it at the next height on the chain the wallet
        is attached to (0 not an unspent output, 1 immature / locked, 2 spendable). *)
@@ -42,8 +42,9 @@ Definition PR (t : list (N * N * N)) : params := mkP h_p2w h_owner 0 10 (sched_f
 
 Inductive deliv := DNone | DStep (k : nat) (news : list block).
 
-(* asset, amount, program, vote, account, index, change, valid height, usable, spend status *)
-Definition orecd := option (N * N * N * option N * N * N * bool * N * bool * N)%type.
+(* one present record: output id, key space (true = standard), asset, amount, program, vote,
+   account, index, change, valid height, usable, spend status *)
+Definition orecd := (N * bool * (N * N * N * option N * N * N * bool * N * bool * N))%type.
 
 Definition spend_status (P : params) (wc : list block) (id h : N) : N :=
   match cscan P wc with
@@ -55,23 +56,24 @@ Definition spend_status (P : params) (wc : list block) (id h : N) : N :=
   | None => 3
   end.
 
-Definition proj_rec (P : params) (wc : list block) (h : N) (ou : option utxo) : orecd :=
+Definition proj_rec (P : params) (wc : list block) (h : N) (id : N) (sp : bool) (ou : option utxo) : list orecd :=
   match ou with
   | Some u =>
     let c := match u_cp u with Some c => c | None => mkCP 0 0 false end in
-    Some (u_asset u, u_amount u, u_prog u, u_vote u, cp_acct c, cp_idx c, cp_change c,
-          u_valid u, usable u h, spend_status P wc (u_id u) h)
-  | None => None
+    [(id, sp, (u_asset u, u_amount u, u_prog u, u_vote u, cp_acct c, cp_idx c, cp_change c,
+               u_valid u, usable u h, spend_status P wc (u_id u) h))]
+  | None => []
   end.
 
-Definition obs := (bool * N * list (orecd * orecd))%type.
+(* the records present under the tracked ids, in the order of the ids, standard key first *)
+Definition obs := (bool * N * list orecd)%type.
 
 Definition observe (P : params) (s : sys) (ids : list N) : obs :=
   let h := tip_height (s_main s) in
   let wc := wchain (s_w s) in
   (N.eqb (tip_id (s_w s)) (match s_main s with b :: _ => b_id b | [] => 0 end), h,
-   map (fun id => (proj_rec P wc h (dget (wdb (s_w s)) (true, id)),
-                   proj_rec P wc h (dget (wdb (s_w s)) (false, id)))) ids).
+   flat_map (fun id => proj_rec P wc h id true (dget (wdb (s_w s)) (true, id)) ++
+                       proj_rec P wc h id false (dget (wdb (s_w s)) (false, id))) ids).
 
 Fixpoint deliver_all (I : impl) (P : params) (s : sys) (ds : list deliv) (ids : list N) : list obs :=
   match ds with
@@ -86,30 +88,33 @@ Fixpoint deliver_all (I : impl) (P : params) (s : sys) (ds : list deliv) (ids : 
 Definition start (I : impl) (P : params) (g : block) (trunk : list block) : sys :=
   fold_left (fun s b => deliver I P s 0 [b]) trunk (mkSys [g] (winit P g)).
 
+(* ids 1..n *)
+Definition ids_upto (n : N) : list N := map N.of_nat (seq 1 (N.to_nat n)).
+
 Definition run_case (t : list (N * N * N)) (g : block) (trunk : list block)
-           (ds : list deliv) (ids : list N) : list obs :=
-  deliver_all repaired (PR t) (start repaired (PR t) g trunk) ds ids.
+           (ds : list deliv) (n : N) : list obs :=
+  deliver_all repaired (PR t) (start repaired (PR t) g trunk) ds (ids_upto n).
 
 (* C24 compares the records; C25 compares ValidHeight, the keeper's verdict and the
    consensus verdict *)
-Definition c24_rec := option (N * N * N * option N * N * N * bool * N)%type.
+Definition c24_rec := (N * bool * (N * N * N * option N * N * N * bool * N))%type.
 Definition c24_of (r : orecd) : c24_rec :=
   match r with
-  | Some (a, am, p, v, ac, ix, ch, vh, _, _) => Some (a, am, p, v, ac, ix, ch, vh)
-  | None => None
+  | (id, sp, (a, am, p, v, ac, ix, ch, vh, _, _)) => (id, sp, (a, am, p, v, ac, ix, ch, vh))
   end.
-Definition c24_obs := (bool * N * list (c24_rec * c24_rec))%type.
+Definition c24_obs := (bool * N * list c24_rec)%type.
 Definition c24_project (o : obs) : c24_obs :=
-  match o with (sy, h, l) => (sy, h, map (fun p => (c24_of (fst p), c24_of (snd p))) l) end.
+  match o with (sy, h, l) => (sy, h, map c24_of l) end.
 
-Definition run_c24 t g trunk ds ids : list c24_obs := map c24_project (run_case t g trunk ds ids).
+Definition run_c24 t g trunk ds n : list c24_obs := map c24_project (run_case t g trunk ds n).
 
 Definition c24_rec_eqb : c24_rec -> c24_rec -> bool :=
-  option_eqb (pair_eqb (pair_eqb (pair_eqb (pair_eqb (pair_eqb (pair_eqb (pair_eqb
-    N.eqb N.eqb) N.eqb) (option_eqb N.eqb)) N.eqb) N.eqb) Bool.eqb) N.eqb).
+  pair_eqb (pair_eqb N.eqb Bool.eqb)
+    (pair_eqb (pair_eqb (pair_eqb (pair_eqb (pair_eqb (pair_eqb (pair_eqb
+      N.eqb N.eqb) N.eqb) (option_eqb N.eqb)) N.eqb) N.eqb) Bool.eqb) N.eqb).
 
 Definition c24_obs_eqb : c24_obs -> c24_obs -> bool :=
-  pair_eqb (pair_eqb Bool.eqb N.eqb) (list_eqb (pair_eqb c24_rec_eqb c24_rec_eqb)).
+  pair_eqb (pair_eqb Bool.eqb N.eqb) (list_eqb c24_rec_eqb).
 
 Definition c24_res := list c24_obs.
 Definition c24_res_eqb : c24_res -> c24_res -> bool := list_eqb c24_obs_eqb.
